@@ -52,7 +52,13 @@ func CheckC11(l *Lab, verifDir string) int {
 		// within the watchdog" is a legal schedule
 		m, err := l.NewMultiFixture(MultiOpts{Kind: kind, N: 4, Race: true,
 			Points: "registry=30:300,tunnel.write=10:200,forward.beforeWrite=10:200,process.afterRead=10:200,legacy.attach=20:300,legacy.in.attach=40:400",
-			Mutate: func(c *GWConfig) { c.ExtraEnv = append(c.ExtraEnv, "GOGC=off", "GOMEMLIMIT=3GiB") }})
+			Mutate: func(c *GWConfig) {
+				c.ExtraEnv = append(c.ExtraEnv, "GOGC=off", "GOMEMLIMIT=3GiB")
+				if kind == "ntlm" {
+					// the socket-buffer options take their own path through the websocket connection
+					c.SendBuf, c.ReceiveBuf = 65536, 65536
+				}
+			}})
 		if err != nil {
 			rep.Inconclusive("fixture: " + err.Error())
 			continue
@@ -65,7 +71,7 @@ func CheckC11(l *Lab, verifDir string) int {
 		}
 		regBase := 0.0
 		for ci, cell := range cells {
-			if skip := rep.ViolationCount() > 30; skip {
+			if skip := rep.ViolationCount() > 8; skip {
 				break
 			}
 			evFrom := m.GW.EventCount()
